@@ -176,7 +176,7 @@ def run_config(chk, config):
     engr, rrets = reader_paths(chk, fx, a)
     worder = None
     for s, wt in wpaths:
-        c = layout.canon_writer(engw, s, [t for t in wt if t["site"]["fn"].endswith("ControlMessage::write") or t["site"]["fn"].endswith("Flags::write")],
+        c = layout.canon_writer(engw, s, [t for t in wt if own_site(t["site"])],
                                 "self.*.Control.0")
         worder = [x[2] if x[0] == "int" else x[0] for x in c]
     rorder = None
